@@ -33,7 +33,8 @@ SetToSeq(S) == IF S = {} THEN <<>> ELSE LET m == CHOOSE x \in S : \A y \in S : x
 \* selector PoolMod = the fixed alphabet; 0..PoolMod-1 = every PoolMod-th eligible name starting there
 PoolFor(s) == IF s = PoolMod THEN SelectSeq([i \in DOMAIN FixedNames |-> NameIdx(FixedNames[i])], LAMBDA n : n # 0 /\ Eligible(n))
               ELSE SetToSeq({n \in DOMAIN Names : n % PoolMod = s /\ Eligible(n)})
-PoolTab == [s \in Sels |-> PoolFor(s)]
+ASSUME TLCSet(121, [s \in Sels |-> PoolFor(s)])
+PoolTab == TLCGet(121)
 Pool == PoolTab[sel]
 
 Toks == LET RECURSIVE S(_) S(i) == IF i > Len(stack) THEN 0 ELSE Len(stack[i]) + S(i + 1) IN S(1)
